@@ -110,18 +110,19 @@ Definition state_eqb (strict dirty : bool) (s : state) (real : list (node * ndum
 (** runs the model over the history; returns the index of the first operation after which
     result or state differ.  Dirty marks are compared under the same restriction as the
     statistic (until the first firewall/projection re-execution of an epoch). *)
-Fixpoint states_diff (strict : bool) (p : program) (i : N) (stat : bool) (s : state) (ops : list op)
-         (real : list opres) (states : list (list (node * ndump))) : option N :=
+Fixpoint states_diff_gen (stepf : state -> op -> state * opres) (strict : bool) (i : N) (stat : bool) (s : state)
+         (ops : list op) (real : list opres) (states : list (list (node * ndump))) : option N :=
   match ops, real, states with
   | [], [], [] => None
   | o :: ops', y :: real', st :: states' =>
-      let '(s', x) := step p s o in
+      let '(s', x) := stepf s o in
       let stat1 := (stat || is_session y) && negb (has_fw_exec y) && negb (has_fw_exec x) in
       if opres_eqb_gen strict stat1 x y && state_eqb strict stat1 s' st
-      then states_diff strict p (i + 1) stat1 s' ops' real' states'
+      then states_diff_gen stepf strict (i + 1) stat1 s' ops' real' states'
       else Some i
   | _, _, _ => Some i
   end.
+Definition states_diff (strict : bool) (p : program) := states_diff_gen (step p) strict.
 
 Definition check (c : case) : bool :=
   match c with
@@ -176,8 +177,10 @@ Definition value_failures (cs : list case) : list N := value_failures_from 0 cs.
 From QV Require Import Engine.Fw.
 Definition check_fw (c : case) : bool :=
   match c with
-  | mkCase p ops real | mkCaseS _ p ops real _ =>
+  | mkCase p ops real =>
       match first_diff 0 (frun_history p init_state ops) real with None => true | Some _ => false end
+  | mkCaseS strict p ops real states =>
+      match states_diff_gen (fstep_f fuel0 p) strict 0 true init_state ops real states with None => true | Some _ => false end
   end.
 Fixpoint fw_failures_from (i : N) (cs : list case) : list N :=
   match cs with
